@@ -8,6 +8,7 @@ package sinkcluster
 // the last reset).
 
 import (
+	"errors"
 	"time"
 
 	"git.torproject.org/pluggable-transports/snowflake.git/v2/common/ipsetsink"
@@ -46,8 +47,13 @@ func verifMarshalW(v interface{}) ([]byte, error) {
 
 type verifJournal struct{}
 
+var verifJournalFails int // the journal write with this number fails (0: none)
+
 func (verifJournal) Write(p []byte) (int, error) {
 	verifWritten++
+	if verifWritten == verifJournalFails {
+		return 0, errJournal // disk full: this chunk did not reach the journal
+	}
 	verifChunks = append(verifChunks, verifDumped)
 	verifStarts = append(verifStarts, verifLastEnt.RecordingStart.UnixNano())
 	verifEnds = append(verifEnds, verifLastEnt.RecordingEnd.UnixNano())
@@ -55,7 +61,10 @@ func (verifJournal) Write(p []byte) (int, error) {
 }
 func (verifJournal) Sync() error { verifSyncs++; return nil }
 
+var errJournal = errors.New("journal write failed (stub)")
+
 func VerifC19_JournalWriter() {
+	verifJournalFails = verifapi.Concrete(verifapi.Choice("failing journal write", 3)) // none, the first, the second
 	verifClockW = 1000
 	const interval = 100
 	c := NewClusterWriter(verifJournal{}, interval, new(ipsetsink.IPSetSink))
@@ -68,6 +77,11 @@ func VerifC19_JournalWriter() {
 	}
 	verifClockW += 500
 	c.WriteIPSetToDisk() // the final flush
+	if verifJournalFails != 0 && verifWritten >= verifJournalFails {
+		verifapi.Cover("a journal write failed")
+		verifClockW += 500
+		c.WriteIPSetToDisk() // the journal works again: what the failed write held back is written now
+	}
 	verifapi.Cover("journal written")
 	if len(verifChunks) > 1 {
 		verifapi.Cover("a roll-over happened")
